@@ -580,7 +580,7 @@ class ExcAnalysis:
             if rv.truthy == YES:
                 ob(n, 'subscript', 'IndexError', text, discharged='non-emptiness test dominates the access')
                 return
-            why = self._invariant_nonempty(fn, recv, n)
+            why = self._invariant_nonempty(fn, recv, n) or self._field_nonempty_everywhere(fn, recv, n)
             if why:
                 ob(n, 'subscript', 'IndexError', text, discharged=why)
                 return
@@ -1066,6 +1066,33 @@ class ExcAnalysis:
                         f'`{f}` whenever `{g}` is {member[1]} ({n_match} such site(s), verified on this run), and this '
                         f'access is under `{ast.unparse(cond)}`')
         return None
+
+    def _field_nonempty_everywhere(self, fn: FuncInfo, recv: ast.expr, node: ast.AST) -> Optional[str]:
+        """recv == <obj>.<field> with obj an instance of a frozen dataclass of the package every construction of which - all
+        of them at module level or in functions of the package - passes a non-empty literal for that field."""
+        if not isinstance(recv, ast.Attribute):
+            return None
+        t = strip_opt(self.abs.type_at(fn, recv.value, node))
+        cls = self.prog.classes.get(t[1]) if t[0] == 'cls' else None
+        if cls is None or not (cls.is_dataclass and cls.frozen) or recv.attr not in self.prog.class_fields(cls):
+            return None
+        sites: List[Tuple[Module, ast.Call]] = [(f.module, c) for f, c in self._ctor_sites(cls)]
+        for m in self.prog.modules.values():
+            for st in m.tree.body:
+                if isinstance(st, (ast.Assign, ast.AnnAssign)) and st.value is not None:
+                    for c in ast.walk(st.value):
+                        if isinstance(c, ast.Call) and self.prog.resolve_expr_symbol(m, c.func) is cls:
+                            sites.append((m, c))
+        if not sites:
+            return None
+        for m, c in sites:
+            v = self.prog.bind_call(m, c).get(recv.attr)
+            if isinstance(v, ast.Constant) and isinstance(v.value, str) and v.value:
+                continue
+            if isinstance(v, (ast.List, ast.Tuple)) and v.elts:
+                continue
+            return None
+        return f'every construction of {cls.name} ({len(sites)} sites) passes a non-empty literal for `{recv.attr}`'
 
     def _ctor_sites(self, cls: ClassInfo) -> List[Tuple[FuncInfo, ast.Call]]:
         out = []
